@@ -174,21 +174,23 @@ theorem inItems_pos (ctx : CheckCtx) (t : Nat) : ∀ {xs : List Expr}, PosOKs S 
     · exact synErr_node S h0 hx.1 _
     · exact ih hx.2
 
-theorem checkWithIn_pos (ctx : CheckCtx) {l r : Expr} (hr : PosOK S r) :
+theorem checkWithIn_pos (ctx : CheckCtx) {l r : Expr} (hl : PosOK S l) (hr : PosOK S r) :
     Pos S (ctx.checkWithIn l r) (fun _ => True) := by
   unfold CheckCtx.checkWithIn
   apply Res.Holds.bind (rt_pos S _ _); intro _ _
   split
-  · exact inItems_pos S h0 _ _ hr.2
-  · apply Res.Holds.bind (rt_pos S _ _); intro _ _
-    split
+  · exact synErr_node S h0 hl _
+  · split
+    · exact inItems_pos S h0 _ _ hr.2
+    · apply Res.Holds.bind (rt_pos S _ _); intro _ _
+      split
+      · exact synErr_node S h0 hr _
+      · simp
+    · apply Res.Holds.bind (rt_pos S _ _); intro _ _
+      split
+      · exact synErr_node S h0 hr _
+      · simp
     · exact synErr_node S h0 hr _
-    · simp
-  · apply Res.Holds.bind (rt_pos S _ _); intro _ _
-    split
-    · exact synErr_node S h0 hr _
-    · simp
-  · exact synErr_node S h0 hr _
 
 theorem checkWithBetween_pos (ctx : CheckCtx) {l r : Expr} (hl : PosOK S l) (hr : PosOK S r) :
     Pos S (ctx.checkWithBetween l r) (fun _ => True) := by
@@ -213,7 +215,7 @@ theorem checkOp_pos (ctx : CheckCtx) {pos : Nat} (hp : S pos) (op : Op) {l r : E
   all_goals first
     | exact checkWithAndOr_pos S h0 _ hl hr
     | exact checkWithMath_pos S h0 _ _ hl hr
-    | exact checkWithIn_pos S h0 _ hr
+    | exact checkWithIn_pos S h0 _ hl hr
     | exact checkWithBetween_pos S h0 _ hl hr
     | exact checkWithCompares_pos S h0 _ hp _ hl hr
     | simpa [EOK] using hp
